@@ -411,6 +411,28 @@ def tours(inits, adj, *, max_len=40, rng=None, max_tours=None, skip=lambda lab: 
     return out, covered[0], total
 
 
+def run_apalache(family, module, args, timeout=180):
+    """Apalache on a copy of specs/<family>: 'ok' (no error), 'error' (property violated), or
+    'unavailable: ...' (tool missing, timeout, anything else).  Used for inductive-invariant notes only."""
+    d = scratch("apa-")
+    for f in os.listdir(os.path.join(SPECS, family)):
+        if f.endswith(".tla"):
+            shutil.copy(os.path.join(SPECS, family, f), d)
+    exe = shutil.which("apalache-mc")
+    if not exe:
+        return "unavailable: apalache-mc not on PATH"
+    try:
+        p = subprocess.run([exe, "check", "--out-dir=" + os.path.join(d, "out")] + list(args) + [module + ".tla"], cwd=d,
+                           stdout=subprocess.PIPE, stderr=subprocess.STDOUT, text=True, timeout=timeout)
+    except subprocess.TimeoutExpired:
+        return "unavailable: timeout"
+    if "The outcome is: NoError" in p.stdout:
+        return "ok"
+    if "The outcome is: Error" in p.stdout:
+        return "error"
+    return "unavailable: " + p.stdout[-200:].replace("\n", " ")
+
+
 # --------------------------------------------------------------------------
 # scratch copy of the working tree with harness injected
 def repo_copy():
